@@ -780,7 +780,7 @@ fn main() {
             |c| guard(check_backpressure_texts, c),
         );
     }
-    ctx.prop("pairs", ctx.pick(500_000, 20_000_000), arb_pair, |c| guard(check_pair, c));
-    ctx.prop("backpressure-keys", ctx.pick(150_000, 4_000_000), arb_pair, |c| guard(check_backpressure, c));
+    ctx.prop("pairs", ctx.pick(350_000, 20_000_000), arb_pair, |c| guard(check_pair, c));
+    ctx.prop("backpressure-keys", ctx.pick(100_000, 4_000_000), arb_pair, |c| guard(check_backpressure, c));
     ctx.finish();
 }
